@@ -4,6 +4,7 @@
 package zzverif
 
 import (
+	"io"
 	"errors"
 	"fmt"
 	"reflect"
@@ -227,7 +228,9 @@ const (
 	vkSliceIntFloatStr // int, then float, then string in one container
 	vkStructIntFloatStr
 	vkEnumStringer // Stringer indexing a table: out-of-range values panic with a runtime error that embeds the value
-	vkNumPrinter   // number of fmt-compatible kinds
+	vkPanThenSiblings // container: an element whose String panics, followed by siblings
+	vkNilIfaceFields  // struct with nil interface-typed fields (error, interface{}) between other fields
+	vkNumPrinter      // number of fmt-compatible kinds
 )
 
 // redact-specific kinds (excluded from the fmt differential)
@@ -252,8 +255,58 @@ const (
 	vkUnsafeNil     // Unsafe(nil)
 	vkSafeIntWrap   // Safe(int)
 	vkUnsafeStrWrap // Unsafe(string)
+	vkRedactableRaw // a caller-made RedactableString ending in the (arbitrary) payload bytes
+	vkSafeBytesThenUnsafe // struct: a SafeValue type of byte-slice kind, a nil SafeValue map, then unsafe fields
+	vkRedThenLeaves       // struct: a concretely typed RedactableString field followed by further fields
+	vkSFWriteString       // SafeFormatter that emits unsafe data with io.WriteString on the printer
 	vkNumRedact
 )
+
+type nilIfaceFields struct {
+	A int
+	E error
+	S string
+	I interface{}
+	P *nilIfaceFields
+}
+
+type safeBytesT []byte
+
+func (safeBytesT) SafeValue() {}
+
+type safeMapT map[string]int
+
+func (safeMapT) SafeValue() {}
+
+type safeArrT [2]byte
+
+func (safeArrT) SafeValue() {}
+
+type safeBytesThenUnsafe struct {
+	B safeBytesT
+	M safeMapT
+	A safeArrT
+	S string
+	N int
+}
+
+type redThenLeaves struct {
+	R  redact.RedactableString
+	S  string
+	RB redact.RedactableBytes
+	N  int
+}
+
+type sfWriteString struct{ s string }
+
+func (x sfWriteString) SafeFormat(p redact.SafePrinter, verb rune) {
+	p.SafeString("ws:")
+	io.WriteString(p, x.s)
+	p.SafeString(";")
+	if sw, ok := p.(io.StringWriter); ok {
+		sw.WriteString(x.s)
+	}
+}
 
 // reentSF's SafeFormat builds redactable strings with top-level calls
 // (the way helper functions do) in the middle of its own output.
@@ -398,6 +451,10 @@ func mkValue(kind int, s string, i int) interface{} {
 		return enumStr(i)
 	case vkMapMyUint:
 		return map[myUint]int{myUint(1<<63) + myUint(i): 1, 2: 2}
+	case vkPanThenSiblings:
+		return []interface{}{panStr{s}, i, "x", 2.5}
+	case vkNilIfaceFields:
+		return nilIfaceFields{i, nil, s, nil, nil}
 
 	case vkSafeStr:
 		return redact.SafeString(s)
@@ -439,6 +496,14 @@ func mkValue(kind int, s string, i int) interface{} {
 		return redact.Safe(i)
 	case vkUnsafeStrWrap:
 		return redact.Unsafe(s)
+	case vkRedactableRaw:
+		return redact.RedactableString("r‹e›" + s)
+	case vkSafeBytesThenUnsafe:
+		return safeBytesThenUnsafe{safeBytesT("pb"), nil, safeArrT{'a', 'b'}, s, i}
+	case vkRedThenLeaves:
+		return redThenLeaves{"r‹e›", s, redact.RedactableBytes("q"), i}
+	case vkSFWriteString:
+		return sfWriteString{s}
 	}
 	panic("mkValue: bad kind")
 }
